@@ -56,6 +56,9 @@ def materialise(tpl, hole, sym):
     elif hole == "cont":
         n, f, c = p0[-1]
         p0[-1] = (n, f, list(c) + [sym])
+    elif hole == "conttail":           # the end of a continuation line (may be blanks)
+        n, f, c = p0[-1]
+        p0[-1] = (n, f, list(c) + [" y" + sym])
     elif hole == "first0":
         n, f, c = p0[0]
         p0[0] = (n, sym, c)
@@ -253,10 +256,13 @@ def partitions(tier, seed):
         add("two", "cont", "bin-iter", False, True, "Deb822", 2)
         add("multi", "first", "lines-nl", True, False, "Deb822", 2)
         add("emptyfirst", "cont", "str", False, False, "Deb822", 3)
+        add("multi", "conttail", "str", True, False, "Deb822", 2)          # armor x end of a continuation line (round 3)
+        add("emptyfirst", "conttail", "lines", True, True, "Dsc", 1)
+        add("multi", "conttail", "bytes", False, False, "Deb822", 2)
     else:
         k = 0
         for tpl in TEMPLATES:
-            for hole in ("name", "first", "cont", "first0"):
+            for hole in ("name", "first", "cont", "conttail", "first0"):
                 for form in FORMS:
                     for armor in (False, True):
                         if armor and (tpl == "two" or form in ("lines-nl", "text-iter")):
@@ -272,6 +278,8 @@ def partitions(tier, seed):
                             if comments and (k % 2):
                                 continue        # comments on every other combination
                             for ln in (1, 2, 3):
+                                if hole == "conttail" and (ln == 3 or tpl == "single"):
+                                    continue
                                 if hole == "cont" and ln == 1:
                                     continue
                                 if hole in ("name", "first0") and ln == 3:
